@@ -229,8 +229,13 @@ def _full(it, args, kwargs):
 def _zeros_like(it, args, kwargs):
     v = args[0]
     if isinstance(v, np.ndarray):
-        out = np.empty(v.shape, dtype=object)
+        shape = _shape_arg(kwargs["shape"]) if kwargs.get("shape") is not None else v.shape
+        out = np.empty(shape, dtype=object)
         out[...] = 0
+        # the new array inherits the dtype of the prototype: the only dtype distinction modelled is "integer array" (registered by
+        # the contract that builds the pre-state, see interp.Interp.int_arrays): values stored into one are truncated toward zero
+        if kwargs.get("dtype") is None and id(v) in getattr(it, "int_arrays", {}):
+            it.int_arrays[id(out)] = out
         return out
     return 0
 
